@@ -72,6 +72,10 @@ def build_files(fd):
         lines.append(ln)
     open(os.path.join(fd, "x1.cif"), "w").write("\n".join(lines))
     open(os.path.join(fd, "x2.cif"), "w").write(c10.cif_text(rows["insertion-codes"]))
+    # inputs that make pdb2pqr hand out chain identifiers: no chain column at all; two peptides under one id (hidden end)
+    open(os.path.join(fd, "k.pdb"), "w").write(gen.pdb_text([gen.peptide(["ALA", "SER", "LYS"], chain=""), gen.transform(gen.peptide(["GLY", "ASP"], chain="", start=11), t=(0, 0, 30))]))
+    two = gen.peptide(["LYS", "ALA", "SER"], chain="A", start=1) + gen.transform(gen.peptide(["GLY", "ASP"], chain="A", start=4), t=(0, 0, 30))
+    open(os.path.join(fd, "h.pdb"), "w").write(gen.pdb_text([two]))
     # ligand complexes
     for nm, mol in (("l1", "ethanol.mol2"), ("l2", "acetate.mol2")):
         shutil.copy(os.path.join(DATA, mol), os.path.join(fd, nm + ".mol2"))
@@ -93,6 +97,9 @@ def build_files(fd):
         "X2": {"input": "x2.cif", "args": ["--ff=PARSE"]},
         "L1": {"input": "l1.pdb", "args": ["--ff=AMBER", "--ligand=@DIR@/l1.mol2"]},
         "L2": {"input": "l2.pdb", "args": ["--ff=AMBER", "--ligand=@DIR@/l2.mol2", "--keep-chain"]},
+        "PA": {"input": "a.pdb", "args": ["--ff=AMBER", "--titration-state-method=propka", "--with-ph=2"]},
+        "K": {"input": "k.pdb", "args": ["--ff=AMBER", "--keep-chain", "--noopt"]},
+        "H": {"input": "h.pdb", "args": ["--ff=PARSE", "--keep-chain"]},
     }
 
 
@@ -115,15 +122,15 @@ def _work(job):
 
 def run(ctx):
     rng = random.Random(ctx.seed)
-    ctx.rule = ("histories <= 3 runs over fifteen configurations (two built-in force-field runs, a --usernames variant of the "
+    ctx.rule = ("histories <= 3 runs over eighteen configurations (two built-in force-field runs, a --usernames variant of the "
                 "same --ff, two user force fields, an input needing multi-atom repair, a run failing in parsing, a run "
-                "failing in the charge check, a PROPKA run, an input among unparseable records, a two-model file, two mmCIF inputs with different optional columns, two ligand complexes), each in a fresh interpreter x hash seeds; quick: all of length "
+                "failing in the charge check, a PROPKA run, an input among unparseable records, a two-model file, two mmCIF inputs with different optional columns, two ligand complexes, a low-pH PROPKA run under AMBER, two inputs for which chain identifiers are handed out), each in a fresh interpreter x hash seeds; quick: all of length "
                 "<= 2 plus a seeded sample of length 3.  Distinct = distinct (history, seed); non-trivial = length >= 2")
     ctx.assumptions += ["hash seeds are sampled (seeded by VERIF_SEED), not exhausted",
                         "the verdict is on the bytes of the PQR file (or the exception class) only"]
     ctx.trusted += ["vlib/histchild.py", "TLC 1.8"]
     cfg = os.path.join(ctx.work, "h.cfg")
-    names = ["A", "B", "C", "U1", "U2", "D", "F1", "F2", "P", "E", "M", "X1", "X2", "L1", "L2"]
+    names = ["A", "B", "C", "U1", "U2", "D", "F1", "F2", "P", "E", "M", "X1", "X2", "L1", "L2", "PA", "K", "H"]
 
     def cfg_text(leak, emit, invs, maxruns=3):
         s = ("SPECIFICATION Spec\nCONSTANTS\n  Configs = {" + ", ".join(json.dumps(n) for n in names) + "}\n"
@@ -145,7 +152,7 @@ def run(ctx):
     core.need_ok(r, "History emit")
     ctx.add_tlc(r, "history emission")
     hists = [json.loads(v[1:]) for v in r.printed if isinstance(v, str) and v.startswith("@")]
-    if len(hists) != 15 + 15 ** 2 + 15 ** 3:
+    if len(hists) != 18 + 18 ** 2 + 18 ** 3:
         raise core.MachineryError(f"emitted {len(hists)} histories")
     files = os.path.join(ctx.work, "files")
     configs = build_files(files)
